@@ -22,6 +22,9 @@ class Flow:
             if t.get("k") == "call":
                 self.defs.setdefault(t["dest"]["l"], []).append(("call", blk["i"], t))
         self.nargs = body["arg_count"]
+        # parameters of helpers inlined by the normaliser: like real parameters, a store into one of their fields
+        # does not change what they *are* (they are defined once, by `param := argument` at the inlining site)
+        self.inl_params = set(body.get("inlined_params") or [])
         self._memo = {}
 
     def sources(self, local, depth=0, seen=None):
@@ -45,7 +48,7 @@ class Flow:
                 rv = d["rv"]
                 if d["lhs"].get("p"):
                     # a store into a field of a parameter does not change what the parameter *is*
-                    if 1 <= local <= self.nargs:
+                    if 1 <= local <= self.nargs or local in self.inl_params:
                         continue
                     out |= self._rv_sources(rv, depth, seen)
                     continue
@@ -138,7 +141,7 @@ class Flow:
             out.add(("param", local, ""))
         for kind, bb, d in self.defs.get(local, []):
             if kind == "stmt":
-                if d["lhs"].get("p") and 1 <= local <= self.nargs:
+                if d["lhs"].get("p") and (1 <= local <= self.nargs or local in self.inl_params):
                     continue
                 out |= self._rv_deps(d["rv"], seen)
             else:
